@@ -8,6 +8,7 @@ import (
 	"github.com/goghcrow/yae/types"
 	"github.com/goghcrow/yae/util"
 	"github.com/goghcrow/yae/val"
+	"github.com/goghcrow/yae/verifhook"
 )
 
 func MustValOf(v interface{}) *val.Val {
@@ -28,6 +29,7 @@ func valOfRV(rv reflect.Value) (vl *val.Val, err error) {
 }
 
 func valOf(rv reflect.Value, lv int) *val.Val {
+	verifhook.Step("conv.valOf")
 	if lv > maxLevel {
 		panic("max nested depth exceeded")
 	}
